@@ -66,7 +66,22 @@ def model_inter(a, b):
     return e, cell, None
 
 
-def eval_inter(prop, fam, a, b, forms=('fn',), measures=False):
+_REUSE = {}
+
+
+def reused(o):
+    """a library object for the exact operand o that is *kept* across consecutive scenes using the
+    same operand (one slot per type name): later scenes then run on an object that has already been
+    queried many times, so impure queries and result caches keyed on stale state become visible."""
+    slot = _REUSE.get(o[0])
+    if slot is not None and slot[0] is o:
+        return slot[1]
+    obj = lib.to_lib(o)
+    _REUSE[o[0]] = (o, obj)
+    return obj
+
+
+def eval_inter(prop, fam, a, b, forms=('fn',), measures=False, reuse_first=False):
     """a, b exact objects.  Returns (cell, viols)."""
     e, cell, skip = model_inter(a, b)
     if skip:
@@ -80,7 +95,7 @@ def eval_inter(prop, fam, a, b, forms=('fn',), measures=False):
         if form.startswith('method') and (a if form == 'method' else b)[0] == 'Point':
             continue
         if la is None or form in ('fn', 'fn-swapped'):
-            la, lb = lib.to_lib(a), lib.to_lib(b)
+            la, lb = (reused(a) if (reuse_first and form == 'fn') else lib.to_lib(a)), lib.to_lib(b)
         if form == 'fn':
             r = lib.call(intersection, la, lb)
         elif form == 'fn-swapped':
